@@ -150,6 +150,8 @@ func runC18(c c18Case, r *rep.Report) (key, msg string, stats map[string]int64) 
 			flushSeqOf := map[string]int64{} // message id -> seq of the flush event carrying it
 			var pattern []string
 			var closeSeq int64
+			var closeAt time.Duration
+			cbAt := map[string]time.Duration{}
 			var lastFlushBatch []*packet.Packet
 			for _, e := range evs {
 				switch e.Kind {
@@ -204,6 +206,9 @@ func runC18(c c18Case, r *rep.Report) (key, msg string, stats map[string]int64) 
 					pattern = append(pattern, "SD")
 				case "close":
 					closeSeq = e.Seq
+					closeAt = e.At
+				case "harness:callback":
+					cbAt[e.Str] = e.At
 				}
 			}
 			// the open packet's hand-off happened before the session was announced: its
@@ -265,8 +270,10 @@ func runC18(c c18Case, r *rep.Report) (key, msg string, stats map[string]int64) 
 					key, msg = "c18-callback-before-flush", fmt.Sprintf("send callback of message %s ran (seq %d) before the flush event of its batch (seq %d, found=%v)", id, rec.seq, fs, ok)
 					return
 				}
-				if closeSeq != 0 && rec.seq > closeSeq {
-					key, msg = "c18-callback-after-close", fmt.Sprintf("send callback of message %s ran after the close event", id)
+				if closeSeq != 0 && rec.seq > closeSeq && cbAt[id] > closeAt {
+					// (a callback released by a drain that raced with the close may be logged a few
+					// events after it at the same virtual instant; "late" means at a later instant)
+					key, msg = "c18-callback-after-close", fmt.Sprintf("send callback of message %s ran at %v, after the close event at %v", id, cbAt[id], closeAt)
 					return
 				}
 				if last, ok := lastPerSender[rec.sender]; ok && rec.n < last {
@@ -300,7 +307,7 @@ var reActions = []string{"Send", "Close(false)", "Close(true)"}
 
 // runReentrancy registers a listener on event that performs action on the session once,
 // triggers the event, and waits (real time) for the goroutine that emitted it to come back.
-func runReentrancy(event, action string) (key, msg string, reached bool) {
+func runReentrancy(event, action, transport string) (key, msg string, reached bool) {
 	so := &config.ServerOptions{}
 	so.SetPingInterval(time.Hour)
 	so.SetPingTimeout(time.Hour)
@@ -345,7 +352,10 @@ func runReentrancy(event, action string) (key, msg string, reached bool) {
 			}
 		})
 	}
-	cl, err := w.Connect(rig.ClientCfg{Rev: 4, Transport: "polling"})
+	if transport != "polling" && event == "upgrade" {
+		return "", "", false
+	}
+	cl, err := w.Connect(rig.ClientCfg{Rev: 4, Transport: transport})
 	if err != nil {
 		return "c18-handshake-failed", err.Error(), false
 	}
@@ -367,9 +377,9 @@ func runReentrancy(event, action string) (key, msg string, reached bool) {
 		case "callback":
 			sock.Send(types.NewStringBufferString("trigger"), nil, func(transports.Transport) { act(sock) })
 		case "message":
-			cl.Post(refcodec.Text(refcodec.Message, "trigger"))
+			cl.Send(refcodec.Text(refcodec.Message, "trigger"))
 		case "heartbeat":
-			cl.Post(refcodec.Packet{Type: refcodec.Pong})
+			cl.Send(refcodec.Packet{Type: refcodec.Pong})
 		case "close":
 			sock.Close(true)
 		case "upgrade":
@@ -392,19 +402,18 @@ func runReentrancy(event, action string) (key, msg string, reached bool) {
 		n := runtime.Stack(buf, true)
 		proof := ""
 		for _, g := range strings.Split(string(buf[:n]), "\n\n") {
-			if strings.Contains(g, "runReentrancy") && strings.Contains(g, "sync.(*Mutex).Lock") && strings.Count(g, "engine.(*socket).flush") >= 2 {
-				proof = rig.TopFrames(g, 12)
+			// the goroutine that is inside the listener's action (runReentrancy.func1 = act) and,
+			// three seconds later, still waiting to acquire a lock of the code under test
+			if strings.Contains(g, "runReentrancy.func1") && (strings.Contains(g, "sync.(*Mutex).Lock") || strings.Contains(g, "sync.(*RWMutex).Lock") || strings.Contains(g, "sync.(*RWMutex).RLock")) {
+				proof = rig.TopFrames(g, 14)
 				break
-			}
-			if strings.Contains(g, "runReentrancy") && strings.Contains(g, "sync.(*Mutex).Lock") && strings.Contains(g, ".act") {
-				proof = rig.TopFrames(g, 12)
 			}
 		}
 		cl.Stop()
 		if proof == "" {
 			return "", "inconclusive: action did not return within 3 s but the dump shows no self-deadlock", true
 		}
-		return fmt.Sprintf("c18-listener-reentrancy-deadlock:%s:%s", event, action), fmt.Sprintf("a %s listener calling %s never returned; the goroutine is blocked re-acquiring a lock it holds: %s", event, action, proof), true
+		return fmt.Sprintf("c18-listener-reentrancy-deadlock:%s:%s", event, action), fmt.Sprintf("a %s listener calling %s on a %s session never returned; three seconds later its goroutine is still waiting for a lock: %s", event, action, transport, proof), true
 	}
 	cl.Stop()
 	return "", "", true
@@ -413,7 +422,7 @@ func runReentrancy(event, action string) (key, msg string, reached bool) {
 func TestC18(t *testing.T) {
 	r := rep.New(t, "C18")
 	defer r.Flush()
-	r.Rule("virtual-time sessions (polling, WebSocket, WebTransport; 1-2 sender goroutines; 2-15 sends with and without callbacks, bursts and gaps; optional upgrade; optional Close at a chosen send) monitored through the tap log: per hand-off exactly flush, server flush (same batch), drain, server drain in order; packetCreate once per accepted Send and before the packet is flushed; no packet flushed twice; conservation on open sessions; callbacks at most once, after their batch's flush event, in send order, never after close; plus the re-entrancy matrix {packetCreate, flush, drain, message, heartbeat, close, upgrade, server flush/drain/connection, send callback} x {Send, Close(false), Close(true)} on real time with a goroutine-dump proof rule; distinct = case signature / matrix cell")
+	r.Rule("virtual-time sessions (polling, WebSocket, WebTransport; 1-2 sender goroutines; 2-15 sends with and without callbacks, bursts and gaps; optional upgrade; optional Close at a chosen send) monitored through the tap log: per hand-off exactly flush, server flush (same batch), drain, server drain in order; packetCreate once per accepted Send and before the packet is flushed; no packet flushed twice; conservation on open sessions; callbacks at most once, after their batch's flush event, in send order, never after close; plus the re-entrancy matrix {packetCreate, flush, drain, message, heartbeat, close, upgrade, server flush/drain/connection, send callback} x {Send, Close(false), Close(true)} x {polling, WebSocket} on real time with a goroutine-dump proof rule; distinct = case signature / matrix cell")
 	r.Assume("a send callback that never runs on an open session is recorded, not judged: the statement bounds callbacks from above (at most once, not before, in order)")
 	n := r.N(2500, 200000)
 	for i := 0; i < n; i++ {
@@ -436,27 +445,29 @@ func TestC18(t *testing.T) {
 		}
 	}
 	cell := 0
-	for _, ev := range reEvents {
-		for _, ac := range reActions {
-			idx := cell
-			cell++
-			if !r.Mine(idx) {
-				continue
-			}
-			id := fmt.Sprintf("reentrancy-%s-%s", ev, ac)
-			r.Begin(id, map[string]string{"event": ev, "action": ac})
-			key, msg, reached := runReentrancy(ev, ac)
-			r.End(id)
-			r.Case("re/"+ev+"/"+ac, reached)
-			if reached {
-				r.Obs("reentrancy_cells_exercised", 1)
-			} else {
-				r.Obs("reentrancy_cells_not_reached", 1)
-			}
-			if key != "" {
-				r.Violation(key, msg, map[string]string{"event": ev, "action": ac})
-			} else if msg != "" {
-				r.Inconclusive(msg)
+	for _, tr := range []string{"polling", "websocket"} {
+		for _, ev := range reEvents {
+			for _, ac := range reActions {
+				idx := cell
+				cell++
+				if !r.Mine(idx) {
+					continue
+				}
+				id := fmt.Sprintf("reentrancy-%s-%s-%s", tr, ev, ac)
+				r.Begin(id, map[string]string{"event": ev, "action": ac, "transport": tr})
+				key, msg, reached := runReentrancy(ev, ac, tr)
+				r.End(id)
+				r.Case("re/"+tr+"/"+ev+"/"+ac, reached)
+				if reached {
+					r.Obs("reentrancy_cells_exercised", 1)
+				} else {
+					r.Obs("reentrancy_cells_not_reached", 1)
+				}
+				if key != "" {
+					r.Violation(key, msg, map[string]string{"event": ev, "action": ac, "transport": tr})
+				} else if msg != "" {
+					r.Inconclusive(msg)
+				}
 			}
 		}
 	}
